@@ -118,13 +118,20 @@ def ctx_nodes(case, t):
     return [k for k in reachable(case["nodes"], roots) if case["nodes"][k].get("ctx")]
 
 
-def gen_muts(r, case, m, n=None):
+def gen_muts(r, case, m, n=None, focus=False):
     """scripted writes of one execution to what it was given: a label set in place by a dependency (while opening /
     in its teardown) or by the task function (at its start / after its awaits), the built-in Context.requeue(), the
-    args list, the kwargs dict, ctx.message re-assigned to a private copy.  Writes that would change the own call
-    (args / kwargs before the task function is called) are not generated."""
+    args list, the kwargs dict, ctx.message re-assigned to a private copy, and - when the message carries a value for
+    a validated parameter - the execution's own mark written into the object it received for it (`val`: for good,
+    `valtmp`: for the time the task function runs), by the task function through its parameter or by a dependency
+    through Context.message.  Writes that would change the own call (args / kwargs before the task function is
+    called) are not generated."""
     t = case["tasks"][m["task"]]
     opts = []
+    w = 0
+    if t.get("val") and m.get("raw") is not None:
+        w = 6 if focus else 2
+        opts += [("start", None, "val")] * w + [("end", None, "val")] * (w // 2) + [("start", None, "valtmp")] * w
     if t.get("ctx"):
         opts += [("start", None, "label")] * 3 + [("end", None, "label")] * 3
         opts += [("start", None, "arg"), ("end", None, "arg"), ("start", None, "kwarg"), ("end", None, "kwarg"),
@@ -132,9 +139,9 @@ def gen_muts(r, case, m, n=None):
         if not t.get("sync"):
             opts += [("end", None, "requeue")] * 4
     for k in ctx_nodes(case, m["task"]):
-        opts += [("node", k, "label")] * 2 + [("node", k, "setmsg")]
+        opts += [("node", k, "label")] * 2 + [("node", k, "setmsg")] + [("node", k, "val")] * (w // 2)
         if case["nodes"][k]["style"] in YIELDING:
-            opts += [("close", k, "label")] * 2
+            opts += [("close", k, "label")] * 2 + [("close", k, "val")] * (w // 2)
     if not opts:
         return
     muts = []
@@ -169,7 +176,7 @@ def alias_tids(r, msgs):
         m["content"] = t if k in same else k
         if k in same:
             m["task"] = msgs[a]["task"]
-            for key in ("nolabels", "kw"):
+            for key in ("nolabels", "kw", "raw", "by"):
                 if key in msgs[a]:
                     m[key] = msgs[a][key]
                 else:
@@ -218,10 +225,117 @@ def gen_mutation_case(r):
     return case
 
 
+# csv / ilist / pdc: the raw value may be a str / int (hashable) while the converted one is a mutable object
+VAL_KINDS = ("csv", "csv", "csv", "ilist", "ilist", "pdc", "pdc", "jl", "jd", "list", "set", "dict", "dc")
+
+
+def raw_pool(kind, salt):
+    """raw values a message may carry for a parameter of that annotation kind, JSON-able; every one contains the
+    case's salt, so that nothing a process-wide cache of the implementation kept from an earlier case of the same
+    driver process can be hit (a failing case then fails on its own, in a fresh process).  No negative numbers and no
+    "x<i>" names: those are the executions' write marks."""
+    if kind == "jl":
+        return ["[%d, 1]" % salt, "[%d, 2, 3]" % salt, "[%d]" % salt, "oops%d" % salt]
+    if kind == "jd":
+        return ['{"a": %d}' % salt, '{"a": 1, "b": %d}' % salt, '{"s%d": 0}' % salt, "{oops%d" % salt]
+    if kind == "csv":
+        return ["red,s%d" % salt, "blue,green,s%d" % salt, salt * 10 + 1, salt * 10 + 2,
+                {"tags": ["red", "s%d" % salt]}]
+    if kind in ("list", "set"):
+        return [[salt, 1], [salt, 2, 2], [salt]]
+    if kind == "ilist":
+        return ["%d,1" % salt, "%d,2,3" % salt, [salt, 1], "%d" % salt]
+    if kind == "pdc":
+        return ["%d;1" % salt, "%d;2;3" % salt, {"n": salt, "items": [1]}, "%d" % salt]
+    if kind == "dict":
+        return [{"a": salt}, {"b": salt, "c": 1}]
+    if kind == "dc":
+        return [{"n": salt, "items": [1]}, {"n": salt, "items": []}]
+    raise ValueError(kind)
+
+
+def add_vals(r, case, p_task=1.0):
+    """validated parameters: tasks get a parameter whose annotation makes pydantic build a fresh mutable object out
+    of the raw value, messages get raw values for it - mostly EQUAL ones (the first of the pool), on messages of one
+    task and of different tasks (same or different annotation)"""
+    salt = r.randrange(1, 10 ** 6)
+    case["salt"] = salt
+    k0 = r.choice(VAL_KINDS)
+    for t in case["tasks"]:
+        if r.random() < p_task:
+            t["val"] = k0 if r.random() < .75 else r.choice(VAL_KINDS)
+    p_hot = r.choice([.5, .7, .7, .9, 1.0])
+    by0 = r.choice(["pos", "pos", "kw"])
+    hot = 0 if r.random() < .55 else r.randrange(8)     # which raw form most messages of the case carry (str / int / list / dict)
+    for m in case["msgs"]:
+        kind = case["tasks"][m["task"]].get("val")
+        if kind is None or r.random() < .08:
+            continue
+        pool = raw_pool(kind, salt)
+        if kind in ("jl", "jd"):
+            pool, junk = pool[:-1], pool[-1]
+            if r.random() < .04:
+                pool = [junk]       # does not validate: the parameter keeps the raw value
+        x = r.random()
+        m["raw"] = pool[hot % len(pool)] if x < p_hot else r.choice(pool)
+        m["by"] = by0 if r.random() < .7 else r.choice(["pos", "kw"])
+    if r.random() < .15:
+        case["validate"] = False
+    return case
+
+
+def gen_value_case(r):
+    """aimed at what validation of the parameters could make executions share: 2-5 deliveries to one or two tasks
+    with a validated mutable parameter, mostly carrying equal raw values, concurrent or one after another, most of
+    them writing their mark into the object they received (task function: through the parameter; dependencies:
+    through Context.message) - every read (Context echo of every dependency when it opens and in its teardown, of the
+    task function, the parameter itself at the start and after the awaits, the stored result) must show the own
+    message's value with nothing but the own marks"""
+    nn = r.choice([1, 1, 2, 2, 3])
+    nodes = gen_graph(r, nn)
+    for n in nodes:
+        n["ctx"] = n["ctx"] or r.random() < .8
+    tasks = []
+    for t in range(r.choice([1, 1, 2])):
+        deps = [[r.randrange(nn), r.random() < .6] for _ in range(r.choice([0, 1, 1, 2]))]
+        tasks.append({"deps": deps, "ctx": r.random() < .85, "sync": r.random() < .12})
+    case = {"nodes": nodes, "tasks": tasks, "msgs": [], "propagate": r.random() < .5,
+            "ack": r.choice(["when_received", "when_executed", "when_saved", "when_saved"]),
+            "middleware": r.random() < .5, "via_inmemory": r.random() < .4, "user_ctx": r.choice([None, None, 7])}
+    k = r.choice([2, 2, 3, 3, 4, 5])
+    spacing = r.choice(["concurrent", "concurrent", "concurrent", "sequential", "mixed"])
+    main_task = r.randrange(len(tasks))
+    for i in range(k):
+        t = main_task if r.random() < .7 else r.randrange(len(tasks))
+        seq = spacing == "sequential" or (spacing == "mixed" and r.random() < .5)
+        m = {"task": t, "start": i * 400000 if seq else r.choice([0, 0, 2000, 5000, 10000]),
+             "pauses": [r.choice(PAUSES) for _ in range(r.choice([1, 2, 3]))],
+             "dur": [] if tasks[t]["sync"] else [r.choice([1000, 5000, 12000, 30000]) for _ in range(r.choice([1, 1, 2]))],
+             "ackable": r.choice(["sync", "sync", "async", "none"]), "kw": r.random() < .7,
+             "outcome": r.choice(["return", "return", "return", "raise", "noresult"])}
+        if r.random() < .15:
+            m["nolabels"] = True
+        if r.random() < .2:
+            m["save_pause"] = r.choice([0, 5000, 15000])
+        case["msgs"].append(m)
+    add_vals(r, case)
+    for m in case["msgs"]:
+        if r.random() < .7:
+            gen_muts(r, case, m, focus=True)
+    if r.random() < .15:
+        alias_tids(r, case["msgs"])
+    return case
+
+
 def sprinkle(r, case):
     """the same dimensions, thinly, over the ordinary cases"""
     msgs = case["msgs"]
     x = r.random()
+    if .23 <= x < .27:
+        add_vals(r, case, .8)
+        for m in msgs:
+            if r.random() < .5:
+                gen_muts(r, case, m, 1, focus=True)
     if x < .08 and len(msgs) >= 2:
         alias_tids(r, msgs)
     elif x < .14:
@@ -244,6 +358,8 @@ def gen_case(r):
         return gen_override_case(r)
     if x < .22:
         return gen_mutation_case(r)
+    if x < .30:
+        return gen_value_case(r)
     return sprinkle(r, gen_plain_case(r))
 
 
@@ -321,7 +437,115 @@ def sent_state(case, i):
     labels = {} if m.get("nolabels") else {"who": c}
     if m.get("timeout") is not None and not m.get("nolabels"):
         labels["timeout"] = m["timeout"] / 1_000_000
-    return {"tid": sent_tid(case, i), "args": [c], "kwargs": {"kw": c} if m.get("kw", True) else {}, "labels": labels}
+    args, kwargs = [c], ({"kw": c} if m.get("kw", True) else {})
+    v = val_info(case, i)
+    if v is not None:
+        if v["by"] == "pos":
+            args.append(json.loads(json.dumps(v["raw"])))
+        else:
+            kwargs["pv"] = json.loads(json.dumps(v["raw"]))
+    return {"tid": sent_tid(case, i), "args": args, "kwargs": kwargs, "labels": labels}
+
+
+def _ints(x):
+    return isinstance(x, list) and all(type(v) is int for v in x)
+
+
+def converted(kind, raw):
+    """the documented conversion of a raw value by the annotation kind (deps_driver.ANNS), in the canonical form of
+    deps_driver.jsonable; the raw value itself where the annotation does not accept it (parse_params then leaves the
+    argument as it came)"""
+    if kind in ("jl", "jd"):
+        if not isinstance(raw, str):
+            return raw
+        try:
+            v = json.loads(raw)
+        except ValueError:
+            return raw
+        if kind == "jl":
+            return v if _ints(v) else raw
+        return v if isinstance(v, dict) and all(type(x) is int for x in v.values()) else raw
+    if kind == "csv":
+        if isinstance(raw, str):
+            return {"__tags__": [p for p in raw.split(",") if p], "note": None}
+        if type(raw) is int:
+            return {"__tags__": [str(raw)], "note": None}
+        if isinstance(raw, dict) and isinstance(raw.get("tags"), list) and set(raw) <= {"tags", "note"}:
+            return {"__tags__": list(raw["tags"]), "note": raw.get("note")}
+        return raw
+    if kind == "list":
+        return list(raw) if _ints(raw) else raw
+    if kind == "set":
+        return {"__set__": sorted(set(raw))} if _ints(raw) else raw
+    if kind == "dict":
+        return dict(raw) if isinstance(raw, dict) and all(type(x) is int for x in raw.values()) else raw
+    if kind == "ilist":
+        if isinstance(raw, str) and all(p.isdigit() for p in raw.split(",") if p):
+            return [int(p) for p in raw.split(",") if p]
+        return list(raw) if _ints(raw) else raw
+    if kind == "pdc" and isinstance(raw, str):
+        parts = [p for p in raw.split(";") if p]
+        if parts and all(p.isdigit() for p in parts):
+            return {"__box__": int(parts[0]), "items": [int(p) for p in parts[1:]]}
+        return raw
+    if kind in ("dc", "pdc"):
+        if isinstance(raw, dict) and type(raw.get("n")) is int and _ints(raw.get("items")) and set(raw) == {"n", "items"}:
+            return {"__box__": raw["n"], "items": list(raw["items"])}
+        return raw
+    return raw
+
+
+def val_info(case, i):
+    """the validated argument delivery i carries: annotation kind, raw value as sent, where it was put, and the forms
+    an execution may hold it in (raw, or converted as documented); None when the message carries none"""
+    m = case["msgs"][i]
+    kind = case["tasks"][m["task"]].get("val")
+    if kind is None or m.get("raw") is None:
+        return None
+    raw = m["raw"]
+    return {"kind": kind, "raw": raw, "by": m.get("by", "pos"), "conv": converted(kind, raw),
+            "validate": bool(case.get("validate", True))}
+
+
+def strip_own(v, i):
+    """a canonical value without the write marks of execution i (deps_driver.mark_val)"""
+    mk, key = -(i + 1), "x%d" % i
+    own = lambda x: type(x) is int and x == mk     # noqa: E731
+    if isinstance(v, list):
+        return [x for x in v if not own(x)]
+    if isinstance(v, dict):
+        if isinstance(v.get("__set__"), list):
+            return {"__set__": [x for x in v["__set__"] if not own(x)]}
+        if isinstance(v.get("__tags__"), list):
+            return {"__tags__": [x for x in v["__tags__"] if x != key], "note": None if v.get("note") == key else v.get("note")}
+        if "__box__" in v and isinstance(v.get("items"), list):
+            return {"__box__": v["__box__"], "items": [x for x in v["items"] if not own(x)]}
+        return {k: x for k, x in v.items() if not (k == key and type(x) is int and x == i)}
+    return v
+
+
+def val_own(obs, val, i):
+    """what execution i holds for its validated argument is its own message's value - as sent or converted as
+    documented - with nothing added but its own marks"""
+    got = strip_own(obs, i)
+    return any(type(got) is type(w) and got == w for w in (val["raw"], val["conv"]))
+
+
+def settle_val(obs, exp, val, i):
+    """the observed message state with the validated argument replaced by what `exp` holds in that place, provided
+    what was observed there is the own message's value (val_own); otherwise obs as it is (and the comparison fails)"""
+    if val is None or not isinstance(obs, dict):
+        return obs
+    o = dict(obs)
+    if val["by"] == "pos":
+        a = o.get("args")
+        if isinstance(a, list) and len(a) > 1 and len(exp["args"]) > 1 and val_own(a[1], val, i):
+            o["args"] = [a[0], exp["args"][1]] + a[2:]
+    else:
+        k = o.get("kwargs")
+        if isinstance(k, dict) and "pv" in k and "pv" in exp["kwargs"] and val_own(k["pv"], val, i):
+            o["kwargs"] = dict(k, pv=exp["kwargs"]["pv"])
+    return o
 
 
 def carrier(case, c, reader):
@@ -364,7 +588,8 @@ def labels_own(obs, exp, declared):
     return all(k in exp or (k in declared and declared[k] == v) for k, v in obs.items())
 
 
-def state_own(obs, exp, declared):
+def state_own(obs, exp, declared, val=None, i=None):
+    obs = settle_val(obs, exp, val, i)
     return (isinstance(obs, dict) and obs.get("tid") == exp["tid"] and obs.get("args") == exp["args"]
             and obs.get("kwargs") == exp["kwargs"] and labels_own(obs.get("labels"), exp["labels"], declared))
 
@@ -386,7 +611,17 @@ def echo_owner(case, echo, reader):
     lab, kws = echo.get("labels") or {}, echo.get("kwargs") or {}
     if echo.get("tid") != s["tid"] or lab.get("who") != s["labels"].get("who") or kws.get("kw") != s["kwargs"].get("kw"):
         return None
-    marks = [_mark("w", k) for k in lab] + [_mark("x", k) for k in kws] + [v - 100 for v in a[1:] if isinstance(v, int)]
+    val = val_info(case, j)
+    rest = a[1:]
+    if val is not None:
+        # the validated argument must be j's too (its value, no other execution's mark in it)
+        slot = (a[1] if len(a) > 1 else None) if val["by"] == "pos" else kws.get("pv")
+        if not val_own(slot, val, j):
+            return None
+        if val["by"] == "pos":
+            rest = a[2:]
+    marks = [_mark("w", k) for k in lab] + [_mark("x", k) for k in kws] + [
+        v - 100 for v in rest if isinstance(v, int) and not isinstance(v, bool)]
     return j if all(m is None or m == j for m in marks) else None
 
 
@@ -499,6 +734,8 @@ def finish(case, d, log):
     d.saves = []              # (global idx, tid, summary)
     d.acks = []
     d.reads = []              # (global idx, ctx number within the execution or None, echo, what)
+    d.preads = []             # (global idx, when, canonical value) - the validated parameter as the task function holds it
+    d.val = val_info(case, d.i)
     d.user_reads = []         # (global idx, node, tag of the user entry the node was given)
     d.effs = []               # Coq eff literals in order
     d.begin_at = None
@@ -526,6 +763,8 @@ def finish(case, d, log):
             d.timeline.append((g, "mut", e[2]))
         elif k == "read":
             d.reads.append((g, e[3] if d.ctxs else None, e[4], e[2]))
+        elif k == "pread":
+            d.preads.append((g, e[2], e[3]))
         elif k == "enter":
             if e[5] is not None:
                 d.reads.append((g, ctxnum.get(e[4]), e[5], "node %d" % e[2]))
@@ -537,6 +776,8 @@ def finish(case, d, log):
             d.effs.append("FDepFail")
         elif k == "task_start":
             d.body = (g, e[3])
+            if "pv" in e[3]:
+                d.preads.append((g, "start", e[3]["pv"]))
             if e[3].get("echo") is not None:
                 d.reads.append((g, 0 if d.ctxs else None, e[3]["echo"], "task"))
             d.effs.append("FTaskStart")
@@ -713,7 +954,7 @@ def oracle_c06(case, d, all_execs):
                 apply_mut(i, view, data)
         elif kind == "read":
             c, echo, what = data
-            if state_own(echo, view, declared):
+            if state_own(echo, view, declared, d.val, i):
                 continue
             who = "the task function" if what == "task" else "a dependency"
             foreign = (not isinstance(echo, dict) or echo.get("tid") != view["tid"]
@@ -734,6 +975,14 @@ def oracle_c06(case, d, all_execs):
                             "(as sent, plus its own writes)",
                             dict(execution=i, task_id=tid, labels=s["labels"], at=g), copy.deepcopy(orig["labels"]),
                             {"kind": "result-labels"}))
+    # the validated parameter as the task function holds it (at its start = what it was called with, after its awaits)
+    for g, when, got in d.preads:
+        if (got is None) if d.val is None else val_own(got, d.val, i):
+            continue
+        out.append(("the task function of one execution observed labels / arguments that are not its own message's "
+                    "(as sent, plus its own writes)",
+                    dict(execution=i, reader="parameter pv (%s)" % when, saw=got, at=g),
+                    None if d.val is None else dict(raw=d.val["raw"], converted=d.val["conv"]), {"kind": "foreign-write"}))
     want_tag = case.get("user_ctx") if case.get("user_ctx") is not None else -1
     for g, node, tag in d.user_reads:
         if tag != want_tag:
@@ -806,6 +1055,7 @@ def sharing_profile(case, ex):
                 if op in ("label", "requeue") and x.msg.get("nolabels") and y.msg.get("nolabels") and same == "same task":
                     seen.add("label write, then read by another label-less execution of the same task")
     keys += sorted(seen)
+    keys += value_profile(case, ex)
     tids = {}
     for d in ex:
         tids.setdefault(d.sent["tid"], []).append(d)
@@ -824,6 +1074,63 @@ def sharing_profile(case, ex):
     else:
         keys.append("task ids: all distinct")
     return keys
+
+
+def _rawtype(raw):
+    return type(raw).__name__
+
+
+def _arrived(d):
+    """the form in which the task function received its validated argument (observed)"""
+    for g, when, got in d.preads:
+        if when == "start":
+            got = C.canon(strip_own(got, d.i))
+            raw, conv = C.canon(d.val["raw"]), C.canon(d.val["conv"])
+            if raw == conv:
+                return "arrived as sent (conversion keeps the form)" if got == raw else "arrived as something else"
+            return "arrived converted" if got == conv else "arrived raw" if got == raw else "arrived as something else"
+    return "task function not reached"
+
+
+def value_profile(case, ex):
+    """evidence keys for validated parameters: annotation kinds, raw types, validate_params, equal raw values on
+    several executions, writes into the received object followed by reads of executions carrying an equal raw value"""
+    vals = [d for d in ex if d.val is not None]
+    if not vals:
+        return ["validated argument: none"]
+    keys = ["validated argument: validate_params=%s" % bool(case.get("validate", True))]
+    for d in vals:
+        v = d.val
+        keys.append("validated argument: %s from %s, %s: %s" % (
+            v["kind"], _rawtype(v["raw"]), "positional" if v["by"] == "pos" else "keyword", _arrived(d)))
+    seen = set()
+    for a in vals:
+        for b in vals:
+            if a.i >= b.i or C.canon(a.val["raw"]) != C.canon(b.val["raw"]):
+                continue
+            same_t = a.msg["task"] == b.msg["task"]
+            same_k = a.val["kind"] == b.val["kind"]
+            seen.add("equal raw values on two executions: %s" % (
+                "same task" if same_t else "different tasks, same annotation" if same_k else "different annotations"))
+    for x in vals:
+        for gm, op, at in x.muts:
+            if op not in ("val", "valtmp"):
+                continue
+            for y in vals:
+                if y is x or C.canon(x.val["raw"]) != C.canon(y.val["raw"]) or x.val["kind"] != y.val["kind"]:
+                    continue
+                if not any(g > gm for g, _, _, _ in y.reads) and not any(g > gm for g, _, _ in y.preads):
+                    continue
+                hashable = isinstance(x.val["raw"], (str, int))
+                if y.cb_start_at is not None and y.cb_start_at < gm:
+                    when = "concurrent"
+                elif x.cb_done_at is not None and y.cb_start_at is not None and y.cb_start_at > x.cb_done_at:
+                    when = "later (writer finished)"
+                else:
+                    when = "started while the writer ran"
+                seen.add("write into a validated argument, then read by an execution with an equal raw value (%s): %s" % (
+                    "raw str / int, converted to a mutable object" if hashable else "raw list / dict", when))
+    return keys + sorted(seen)
 
 
 # --------------------------------------------------------------------------- C06 action sequence
@@ -958,6 +1265,20 @@ def reductions(case):
                     variant(lambda c, i=i, j=j: c["msgs"][i]["muts"].pop(j))
         if m.get("nolabels"):
             variant(lambda c, i=i: c["msgs"][i].pop("nolabels"))
+        if m.get("raw") is not None:
+            def unval(c, i=i):
+                mm = c["msgs"][i]
+                mm.pop("raw")
+                mm.pop("by", None)
+                if mm.get("muts"):
+                    mm["muts"] = [mu for mu in mm["muts"] if mu["op"] not in ("val", "valtmp")]
+                    if not mm["muts"]:
+                        del mm["muts"]
+            variant(unval)
+            if m.get("by", "pos") != "pos":
+                variant(lambda c, i=i: c["msgs"][i].update(by="pos"))
+    if case.get("validate") is False:
+        variant(lambda c: c.pop("validate"))
     if any("tid" in m for m in case["msgs"]):
         def untid(c):
             for m in c["msgs"]:
@@ -995,6 +1316,14 @@ def shrink_failures(ctx, rep, fails_of, is_known=lambda f: False, rounds=30, bud
             break
         case = f["case"]
         best = None
+
+        def same_failure(c, o, f=f):
+            for what, observed, expected, sig in fails_of(c, o):
+                g = dict(what=what, case=c, observed=observed, expected=expected, sig=sig)
+                if what == f["what"] and not is_known(g):
+                    return g
+            return None
+
         for _ in range(rounds):
             if time.time() > t_end:
                 break
@@ -1002,16 +1331,23 @@ def shrink_failures(ctx, rep, fails_of, is_known=lambda f: False, rounds=30, bud
             if not cands:
                 break
             obs = C.run_driver(ctx, "deps_driver", cands)
-            hit = None
+            hits = []
             for c, o in zip(cands, obs):
                 if "_crash" in o:
                     continue
-                for what, observed, expected, sig in fails_of(c, o):
-                    g = dict(what=what, case=c, observed=observed, expected=expected, sig=sig)
-                    if what == f["what"] and not is_known(g):
-                        if hit is None or len(json.dumps(c)) < len(json.dumps(hit["case"])):
-                            hit = g
-                        break
+                g = same_failure(c, o)
+                if g is not None:
+                    hits.append(g)
+            # the candidates of one round share driver processes: a candidate counts only if it fails in the same way
+            # on its own, in a fresh process (process-wide state of the implementation - a cache keyed by a value the
+            # candidates have in common - may have been left behind by another candidate)
+            hits.sort(key=lambda g: len(json.dumps(g["case"])))
+            hit = None
+            for g in hits[:4]:
+                o = C.run_driver(ctx, "deps_driver", [g["case"]], nproc=1)[0]
+                hit = None if "_crash" in o else same_failure(g["case"], o)
+                if hit is not None or time.time() > t_end:
+                    break
             if not hit:
                 break
             case, best = hit["case"], hit
